@@ -233,12 +233,21 @@ impl Rng {
                 let k = n.min(8);
                 v[..k].copy_from_slice(&img[8 - k..]);
             }
-            _ => {
-                let b = v[0];
-                for x in v.iter_mut() {
-                    *x = b;
+            _ => match self.below(3) {
+                0 => v.sort(),
+                1 => {
+                    let n2 = v.len();
+                    for i in 0..n2 / 2 {
+                        v[n2 - 1 - i] = v[i];
+                    }
                 }
-            }
+                _ => {
+                    let b = v[0];
+                    for x in v.iter_mut() {
+                        *x = b;
+                    }
+                }
+            },
         }
         Some(v)
     }
@@ -497,7 +506,42 @@ pub fn rfc_message(r: &Rng) -> TMsg {
         avps.insert(at, gen_avp_kind(r, "RandomVector", false));
     }
     let tid = r.u16x();
-    TMsg::Control { len: 0, tid, sid: if r.chance(1, 3) { 0 } else { r.u16x() }, ns: r.u16x(), nr: r.u16x(), avps }
+    let m = TMsg::Control { len: 0, tid, sid: if r.chance(1, 3) { 0 } else { r.u16x() }, ns: r.u16x(), nr: r.u16x(), avps };
+    relate_control(r, m)
+}
+
+/// header fields and numeric AVP values related to each other, to the encoded size and to the number of AVPs: a
+/// relation independent draws do not produce and code may (wrongly) act on
+pub fn relate_control(r: &Rng, m: TMsg) -> TMsg {
+    if !r.chance(1, 8) {
+        return m;
+    }
+    let total = encode_msg(&m).map(|b| b.len()).unwrap_or(0) as u16;
+    if let TMsg::Control { len, mut tid, mut sid, mut ns, mut nr, mut avps } = m {
+        let n = avps.len() as u16;
+        let pool = [tid, sid, ns, nr, total, n, total.wrapping_sub(12)];
+        match r.below(8) {
+            0 => sid = tid,
+            1 => nr = ns,
+            2 => nr = ns.wrapping_add(1),
+            3 => ns = nr.wrapping_add(1),
+            4 => tid = total,
+            5 => sid = n,
+            6 => {
+                tid = 0;
+                sid = 0;
+            }
+            _ => ns = tid,
+        }
+        // a 16- or 32-bit AVP value equal to one of them
+        for a in avps.iter_mut() {
+            if (U16_KINDS.contains(&a.kind.as_str()) || U32_KINDS.contains(&a.kind.as_str())) && r.chance(1, 2) {
+                a.args = vec![r.pick(&pool).to_string()];
+            }
+        }
+        return TMsg::Control { len, tid, sid, ns, nr, avps };
+    }
+    m
 }
 
 pub fn gen_control(r: &Rng, max_avps: usize, big: bool) -> TMsg {
@@ -535,7 +579,8 @@ pub fn gen_control(r: &Rng, max_avps: usize, big: bool) -> TMsg {
             avps.push(gen_avp(r, big && r.chance(1, 4)));
         }
     }
-    TMsg::Control { len: if r.chance(1, 2) { 0 } else { r.u16x() }, tid: r.u16x(), sid: r.u16x(), ns: r.u16x(), nr: r.u16x(), avps }
+    let m = TMsg::Control { len: if r.chance(1, 2) { 0 } else { r.u16x() }, tid: r.u16x(), sid: r.u16x(), ns: r.u16x(), nr: r.u16x(), avps };
+    relate_control(r, m)
 }
 
 pub fn data_header_len(len: bool, nsnr: bool, off: bool) -> usize {
@@ -568,7 +613,36 @@ pub fn gen_data(r: &Rng, with_offset: bool) -> TMsg {
     let nsnr = if r.chance(1, 2) { Some((r.u16x(), r.u16x())) } else { None };
     let off = if with_offset && r.chance(1, 2) { Some(*r.pick(&[0usize, 0, 1.min(dl - 1), dl - 1, r.below(dl)]) as u16) } else { None };
     let total = data_header_len(has_len, nsnr.is_some(), off.is_some()) + dl;
-    TMsg::Data { p: r.chance(1, 2), len: if has_len { Some(total as u16) } else { None }, tid: r.u16x(), sid: r.u16x(), nsnr, off, data }
+    let (mut tid, mut sid) = (r.u16x(), r.u16x());
+    let mut nsnr = nsnr;
+    // fields related to each other and to the sizes: an id equal to the payload length or to the total length, Ns / Nr
+    // equal to an id, the payload beginning with the message's own header octets
+    match r.below(16) {
+        0 => tid = dl as u16,
+        1 => sid = total as u16,
+        2 => {
+            if let Some((a, _)) = nsnr {
+                nsnr = Some((a, tid));
+            }
+        }
+        3 => {
+            if let Some((_, b)) = nsnr {
+                nsnr = Some((sid, b));
+            }
+        }
+        4 => sid = tid,
+        _ => {}
+    }
+    let m = TMsg::Data { p: r.chance(1, 2), len: if has_len { Some(total as u16) } else { None }, tid, sid, nsnr, off, data };
+    if r.chance(1, 12) {
+        if let (Some(img), TMsg::Data { p, len, tid, sid, nsnr, off, data }) = (encode_msg(&m), m.clone()) {
+            let mut d = data.clone();
+            let k = d.len().min(img.len());
+            d[..k].copy_from_slice(&img[..k]);
+            return TMsg::Data { p, len, tid, sid, nsnr, off, data: d };
+        }
+    }
+    m
 }
 
 /// a data message as a caller may build it: the Length field absent, true, off by a little, or anything at all
@@ -1825,8 +1899,34 @@ fn hide_args(r: &Rng, value_len: usize) -> (Vec<u8>, Vec<u8>, Vec<u8>, Vec<u8>) 
         3 => ((16 * *r.pick(&[1usize, 2, 3, 4, 5, 63])).saturating_sub(base)).min(1000), // block-count targets
         _ => r.below(40),
     };
-    let lp = r.bytes(lp_len);
-    let ap = r.bytes(16);
+    let mut s = s;
+    let mut lp = r.bytes(lp_len);
+    let mut ap = r.bytes(16);
+    // the arguments related to each other: the secret equal to the random vector's octets, the padding a copy of the
+    // secret or all one octet, the alignment padding equal to the start of the secret
+    match r.below(20) {
+        0 => s = rv.clone(),
+        1 => {
+            for (i, x) in lp.iter_mut().enumerate() {
+                *x = if s.is_empty() { 0 } else { s[i % s.len()] };
+            }
+        }
+        2 => {
+            let b = ap[0];
+            for x in ap.iter_mut() {
+                *x = b;
+            }
+            for x in lp.iter_mut() {
+                *x = b;
+            }
+        }
+        3 => {
+            for (i, x) in ap.iter_mut().enumerate() {
+                *x = if s.is_empty() { 0 } else { s[i % s.len()] };
+            }
+        }
+        _ => {}
+    }
     (s, rv, lp, ap)
 }
 
